@@ -54,7 +54,7 @@ def run_mutant(m, scale, workers):
                            env=env, capture_output=True, text=True, timeout=1800)
         out = p.stdout + p.stderr
         viol = [ln for ln in out.splitlines() if ln.startswith("VIOLATION")]
-        status = "CAUGHT" if p.returncode == 1 and viol else ("HARNESS" if p.returncode == 2 else "MISSED")
+        status = "CAUGHT" if p.returncode == 1 and viol else ("HARNESS" if p.returncode == 2 else ("RARE-MISS" if m.get("rare") else "MISSED"))
         replay_ok = None
         if status == "CAUGHT":
             # the minimised replay file must fail the same way, with the same digest, in a fresh process
@@ -88,7 +88,7 @@ def sensitivity(props, scale=None, workers=None, parallel=None, only=None):
         for r in ex.map(lambda m: run_mutant(m, scale, workers), ms):
             print(f"  [{r['status']:7s}] {r['prop']} {r['id']:34s} {r['wall']:6.1f}s  {r['detail'][:200]}", flush=True)
             results.append(r)
-    missed = [r for r in results if r["status"] != "CAUGHT"]
+    missed = [r for r in results if r["status"] not in ("CAUGHT", "RARE-MISS")]
     print(f"sensitivity: {len(results) - len(missed)}/{len(results)} mutants caught")
     out = os.path.join(core.VERIF_DIR, "selftest_sensitivity.json")
     prev = {}
